@@ -180,6 +180,16 @@ def monitor (evs : List (Nat × Fields)) : String :=
       let fetchers' := if (ev = "call" || ev = "callabort") && getD f "fetch" "0" = "1" then c :: fetchers else fetchers
       let starved : Option Nat := (callers.find? fun (cid, st) => st = "none" && fetchers'.contains cid).map (·.1)
       let hang := (getD f "final" "0" = "1" || ev = "abort" || ev = "callabort") && callers.any fun (_, st) => st = "p"
+      -- C18: at the end (nothing held, nothing in flight) a fresh lookup holds the only reference
+      let leaked : Option (Nat × Nat) := (listOf (getD f "refs" "-")).findSome? fun t =>
+        match tuple t with
+        | [kk, r] => (match kk.toNat?, r.toNat? with
+            | some kk, some r => if r ≠ 1 then some (kk, r) else none
+            | _, _ => none)
+        | _ => none
+      if leaked.isSome then
+        s!"FAILS prop=C18 clause=reference_leaked_by_inflight_path line={ln} step={n} detail=key_{(leaked.getD (0, 0)).1}:_refs()_of_a_fresh_lookup_is_{(leaked.getD (0, 0)).2}_with_no_other_handle_outstanding"
+      else
       match foreignCaller, foreignCache with
       | some (cid, v), _ => s!"FAILS prop=C17 clause=foreign_value_to_caller line={ln} step={n} detail=caller_{cid}_received_value_{v}_which_was_produced_for_another_key"
       | _, some (kk, v) => s!"FAILS prop=C17 clause=foreign_value_cached line={ln} step={n} detail=key_{kk}_caches_value_{v}_which_was_produced_for_another_key"
